@@ -212,11 +212,30 @@ func C04(r *Run) {
 			}(l)
 		}
 	}
+	// the hand-written format corpus, judged through the independent decoders
+	corpus, corpusSkipped := corpusLayouts()
+	for _, l := range corpus {
+		wg.Add(1)
+		sem <- struct{}{}
+		go func(l *layout) {
+			defer wg.Done()
+			defer func() { <-sem }()
+			sess, ok := runSession(r, l, false)
+			if !ok {
+				return
+			}
+			mu.Lock()
+			sessions = append(sessions, sess)
+			mu.Unlock()
+		}(l)
+	}
 	wg.Wait()
+	r.Cov["format_corpus_texts"] = len(corpus)
+	r.Cov["format_corpus_skipped_by_independent_decoder"] = corpusSkipped
 	r.Cov["style_variants_used"] = styleUsed
 	r.Cov["style_variants_skipped_by_self_check"] = styleSkipped
 	_ = tv.Equal
 	_ = fmt.Sprint
 	finishEvalFamily(r, "C04", st, sessions, []string{"FormatFree (every assignment equals the all-JSON writing)"},
-		"model: a numeric base layer x 20 upper layers ($match / $delete patterns with 32-bit-overflowing, 64-bit and float ids, same-value overrides of ints, floats, extremes and denormals, $repeat, document-level $match on numbers) x 3 third layers under ALL 3^n assignments of json/yaml/toml, each run through the real bkl; driver: random numeric layer sets (1-3 layers, 1-2 documents) under all 3^n assignments, a third of them in a style variant (YAML flow, anchors/aliases, merge keys, number-like keys written plain, document markers with comments; TOML dotted keys, inline tables, +++ separators; CRLF line endings in every format) that the independent decoder confirms to mean the same tree; TLC validates every run against the format-free RunLayers")
+		"model: a numeric base layer x 20 upper layers ($match / $delete patterns with 32-bit-overflowing, 64-bit and float ids, same-value overrides of ints, floats, extremes and denormals, $repeat, document-level $match on numbers) x 3 third layers under ALL 3^n assignments of json/yaml/toml, each run through the real bkl; driver: random numeric layer sets (1-3 layers, 1-2 documents) under all 3^n assignments, a third of them in a style variant (YAML flow, anchors/aliases, merge keys, number-like keys written plain, document markers with comments; TOML dotted keys, inline tables, +++ separators; CRLF line endings in every format) that the independent decoder confirms to mean the same tree; a hand-written corpus of YAML / TOML / JSON texts (merge keys and lists of them, anchors, core-schema scalars, block scalars, streams with every marker form, tables, arrays of tables, dotted keys) whose meaning is the independent decoder's reading; TLC validates every run against the format-free RunLayers")
 }
